@@ -109,7 +109,7 @@ def okEv (b : B) : Ev → Bool
     (match f with
      | .connect req =>
        !Mqtt.Proofs.BrokerLife.accepts (.connect req) a ||
-         (cidFree b (Mqtt.Proofs.BrokerLife.effCid c req) &&
+         ((req.clientId.isEmpty || cidFree b req.clientId) &&
           (match req.will with | some w => willOk w | none => true))
      | _ => true)
   | .packet _ (.publish p) => pubOk p
@@ -251,6 +251,63 @@ theorem anonSpec_inj_anonId {c c' : Nat} (h : anonSpec c = anonSpec c') : anonId
   unfold anonId
   rw [this]
 
+/-! ### generated identifiers of different connections differ -/
+
+theorem byteArray_loop_eq (bs : ByteArray) : ∀ (n i : Nat) (r : List UInt8), bs.size - i = n →
+    ByteArray.toList.loop bs i r = r.reverse ++ bs.data.toList.drop i := by
+  intro n
+  induction n with
+  | zero =>
+    intro i r h
+    unfold ByteArray.toList.loop
+    have : ¬ i < bs.size := by omega
+    simp only [this, ↓reduceIte]
+    have hsz : bs.size = bs.data.toList.length := rfl
+    have : bs.data.toList.drop i = [] := by
+      apply List.drop_eq_nil_of_le
+      omega
+    rw [this, List.append_nil]
+  | succ n ih =>
+    intro i r h
+    unfold ByteArray.toList.loop
+    have hi : i < bs.size := by omega
+    simp only [hi, ↓reduceIte]
+    rw [ih (i + 1) _ (by omega)]
+    have hsz : bs.size = bs.data.toList.length := rfl
+    have hi' : i < bs.data.toList.length := by omega
+    have hi'' : i < bs.data.size := hi
+    rw [List.drop_eq_getElem_cons hi']
+    simp only [List.reverse_cons, List.append_assoc, List.singleton_append]
+    congr 2
+    show bs.data[i]! = _
+    rw [getElem!_pos bs.data i hi'']
+    simp
+
+theorem byteArray_toList_eq (bs : ByteArray) : bs.toList = bs.data.toList := by
+  unfold ByteArray.toList
+  rw [byteArray_loop_eq bs _ 0 [] rfl]
+  simp
+
+theorem byteArray_toList_inj {a b : ByteArray} (h : a.toList = b.toList) : a = b := by
+  rw [byteArray_toList_eq, byteArray_toList_eq] at h
+  apply ByteArray.ext
+  exact Array.toList_inj.mp h
+
+/-- the decimal numeral of a connection number, as bytes, determines the number -/
+theorem toString_bytes_inj {a b : Nat} (h : (toString a).toUTF8.toList = (toString b).toUTF8.toList) : a = b := by
+  have h1 := byteArray_toList_inj h
+  have h2 : toString a = toString b := String.toByteArray_inj.mp h1
+  have h3 : (toString a).toList = (toString b).toList := by rw [h2]
+  have e : ∀ n : Nat, (toString n).toList = Nat.toDigits 10 n := fun n => by
+    rw [Nat.toString_eq_ofList_toDigits, String.toList_ofList]
+  rw [e, e] at h3
+  have := congrArg (fun l => Nat.ofDigitChars 10 l 0) h3
+  simpa [Nat.ofDigitChars_ten_toDigits] using this
+
+theorem anonId_inj {a b : Nat} (h : anonId a = anonId b) : a = b := by
+  unfold anonId at h
+  exact toString_bytes_inj (List.append_cancel_left (List.cons.inj h).2)
+
 /-! ### the initial states -/
 
 theorem R_init : R {} {} := by
@@ -265,5 +322,17 @@ theorem R_init : R {} {} := by
   · intro c c' σ σ' h; simp [liveSess, B.getConn] at h
   · intro x _ _
     exact ⟨by intro σ h; simp [resumable, B.storeGet] at h, by intro _; rfl⟩
+
+/-- the generated identifier of a connection that is not live is used by no live connection -/
+theorem R.anon_free {b : B} {s : Spec.Broker.S} (h : R b s) {c : Nat} (hdead : b.alive c = false) :
+    ∀ c' τ, liveSess b c' = some τ → τ.cid ≠ anonId c := by
+  intro c' τ hτ he
+  obtain ⟨k, _, hrel⟩ := h.live c' τ hτ
+  rcases hrel.cid with ⟨e1, hr⟩ | ⟨e1, _, _⟩
+  · rw [← e1, he, anonId_not_real] at hr; cases hr
+  · rw [e1] at he
+    have := anonId_inj he
+    subst this
+    rw [liveSess_alive hτ] at hdead; cases hdead
 
 end Mqtt.Proofs.BrokerRefine
